@@ -144,7 +144,14 @@ def _withdraw_old(ctx):
     return ob_release(1, 1, real_kernel=True, real_sub=True, only={'release:fails', 'release:share', 'release:removed', 'release:msg'})(ctx)
 
 
-OBLIGATIONS = [('withdraw_matured_with_pending_requests', _withdraw_immature), ('withdraw_released_claim_when_next_batch_matures', _withdraw_old), ('unbond_bsei_d1', ob_unbond('b', 1)), ('unbond_stsei_d1', ob_unbond('s', 1)), ('unbond_bsei_d2', ob_unbond('b', 2)),
+def _withdraw_k0(ctx):
+    """a withdrawal that releases nothing (the batch was released by an earlier withdrawal of another claimant) keeps the
+    recorded balance in step with what left the hub, otherwise the next release misreads the arrived coins"""
+    from checks.c01 import ob_release
+    return ob_release(0, 1, real_kernel=True, only={'release:fails', 'release:share', 'release:prev', 'release:solvent', 'release:removed'})(ctx)
+
+
+OBLIGATIONS = [('withdraw_matured_with_pending_requests', _withdraw_immature), ('withdraw_without_release', _withdraw_k0), ('withdraw_released_claim_when_next_batch_matures', _withdraw_old), ('unbond_bsei_d1', ob_unbond('b', 1)), ('unbond_stsei_d1', ob_unbond('s', 1)), ('unbond_bsei_d2', ob_unbond('b', 2)),
                ('unbond_stsei_d2', ob_unbond('s', 2)), ('independent_hub', ob_independent_hub), ('independent_tokens', ob_independent_tokens)]
 
 
